@@ -423,6 +423,7 @@ func handleConn(p *pkg, l *gen.Lean) error {
 	routeGuard, dialGuard := "", ""
 	routeFrom, dialFrom := "", ""
 	collectDown, collectUp, payloadTo := "", "", ""
+	copied, errChecked := false, false
 	skipRe := regexp.MustCompile(`^(var clientConn netio\.Conn|clientAddrPort := clientTCPConn\.RemoteAddr\(\)\.\(\*net\.TCPAddr\)\.AddrPort\(\)|clientAddress := clientAddrPort\.String\(\)|logger :?= (lnc\.)?logger\.With\(.*\)|targetAddress := req\.Addr\.String\(\))$`)
 	collectRe := regexp.MustCompile(`^s\.collector\.CollectTCPSession\(req\.Username, uint64\((nl2r|nr2l)\), uint64\((nl2r|nr2l)\)\)$`)
 	addRe := regexp.MustCompile(`^(nl2r|nr2l) \+= int64\(len\(req\.Payload\)\)$`)
@@ -504,6 +505,7 @@ func handleConn(p *pkg, l *gen.Lean) error {
 			}
 			prog = append(prog, ".proceedAlways")
 		case s == "nl2r, nr2l, err := netio.BidirectionalCopy(clientConn, remoteConn)":
+			copied = true
 			prog = append(prog, ".copy")
 		case addRe.MatchString(s):
 			payloadTo = "." + addRe.FindStringSubmatch(s)[1]
@@ -512,11 +514,16 @@ func handleConn(p *pkg, l *gen.Lean) error {
 			m := collectRe.FindStringSubmatch(s)
 			collectDown, collectUp = "."+m[1], "."+m[2]
 			prog = append(prog, ".collect")
-		case strings.HasPrefix(s, "if err != nil {") && len(prog) > 0 && prog[len(prog)-1] == ".collect":
+		case strings.HasPrefix(s, "if err != nil {") && copied && !errChecked:
+			// the error of BidirectionalCopy (no other statement between the copy and here assigns err: every statement
+			// in between was recognised above as addPayloadLen / collect / logging)
 			ifs := st.(*ast.IfStmt)
-			if !onlyLogOrReturn(e, ifs.Body.List) {
+			if ifs.Init != nil || ifs.Else != nil || e.src(ifs.Cond) != "err != nil" || !onlyLogOrReturn(e, ifs.Body.List) ||
+				len(ifs.Body.List) == 0 || e.src(ifs.Body.List[len(ifs.Body.List)-1]) != "return" {
 				return fmt.Errorf("handleConn: unrecognised statement after the copy: %s", s)
 			}
+			errChecked = true
+			prog = append(prog, ".returnIfCopyErr")
 		default:
 			ifs, ok := st.(*ast.IfStmt)
 			if ok && ifs.Init == nil && ifs.Else == nil && waitCond == nil && strings.Contains(s, "req.PendingConn.Proceed()") {
@@ -556,7 +563,7 @@ deriving DecidableEq, Repr
 /-- key calls of service.(*TCPRelay).handleConn, in source order -/
 inductive Step where
   | deferCloseClient | handleStream | route | newDialer | waitBlock | dial | deferCloseRemote
-  | proceedIfPending | proceedAlways | copy | addPayloadLen | collect
+  | proceedIfPending | proceedAlways | copy | addPayloadLen | collect | returnIfCopyErr
 deriving DecidableEq, Repr
 
 /-- statements of the wait block -/
